@@ -201,7 +201,7 @@ func (l *Loaded) runInstance(in *Instance, solverKinds []string, queryTimeoutMs 
 		sol.Close()
 		res.Wall = time.Since(t0)
 	}()
-	cfg := &Config{MaxSteps: 20_000_000, MaxHeap: 1 << 30, MaxConcretise: 70, MaxAlloc: 1 << 24, NumCPU: 2, Params: in.Params, CheckAllocSize: in.CheckAlloc}
+	cfg := &Config{MaxSteps: 20_000_000, MaxHeap: 1 << 30, MaxConcretise: 200, MaxAlloc: 1 << 24, NumCPU: 2, Params: in.Params, CheckAllocSize: in.CheckAlloc}
 	if in.MaxSteps > 0 {
 		cfg.MaxSteps = in.MaxSteps
 	}
